@@ -1,4 +1,5 @@
 import BnpVerif.Model.C11
+import BnpVerif.Props.C10
 /-! C11 property theorems. Helper lemmas first; the property theorems are the ones listed in
 `Audit/C11.lean`. Everything is for unbounded inputs: every stream `cs` (list of chunks), i.e. every
 chunking of `cs.flatten`. -/
@@ -1299,12 +1300,17 @@ def NodeRel (g : List NodeDef) (lens : List Nat) (n : Nat) (A : List (List Int))
   A.map List.length = lens ∧ (∀ i (h : i < A.length), valAt g i (n + 1) n = some A[i]) ∧
     evalMem g (n + 1) n = some A.flatten
 
-theorem node_chunks (g : List NodeDef) (hg : WFG g) (hna : HasNodeArg g) (lens : List Nat) (ha : Aligned g lens) :
-    ∀ n, n < g.length → ∃ A, NodeRel g lens n A := by
+/-- every `ComputationNode` in the set `P` applies an element-wise function -/
+def EwOn (g : List NodeDef) (P : Nat → Prop) : Prop :=
+  ∀ (n : Nat) (f : Fn) (a b : Arg), P n → g[n]? = some (NodeDef.comp f a b) → f.elementwise = true
+
+theorem node_chunks (g : List NodeDef) (hg : WFG g) (hna : HasNodeArg g) (lens : List Nat) (ha : Aligned g lens)
+    (P : Nat → Prop) (hP : ∀ n d, P n → g[n]? = some d → ∀ m ∈ nodeArgs d, P m) (hew : EwOn g P) :
+    ∀ n, P n → n < g.length → ∃ A, NodeRel g lens n A := by
   intro n
   induction n using Nat.strongRecOn with
   | _ n ih =>
-    intro hn
+    intro hnb hn
     have hd : g[n]? = some g[n] := List.getElem?_eq_getElem hn
     cases hdn : g[n] with
     | stream cs =>
@@ -1315,22 +1321,23 @@ theorem node_chunks (g : List NodeDef) (hg : WFG g) (hna : HasNodeArg g) (lens :
     | comp f a b =>
       rw [hdn] at hd
       have hlt : ∀ m ∈ nodeArgs (.comp f a b), m < n := hg n _ hd
-      have harg : ∀ x : Arg, (∀ m ∈ argNodes x, m < n) → ∃ V, ArgRel g lens n x V := by
-        intro x hx
+      have harg : ∀ x : Arg, (∀ m ∈ argNodes x, m < n) → (∀ m ∈ argNodes x, P m) → ∃ V, ArgRel g lens n x V := by
+        intro x hx hPargs
         cases x with
         | const c => exact ⟨.inr c, fun _ => rfl, rfl⟩
         | node m =>
           have hm : m < n := hx m (by simp [argNodes])
-          obtain ⟨A, h1, h2, h3⟩ := ih m hm (by omega)
+          obtain ⟨A, h1, h2, h3⟩ := ih m hm (hPargs m (by simp [argNodes])) (by omega)
           refine ⟨.inl A, h1, ?_, ?_⟩
           · intro i h
             simp only [argValWith, hm, ↓reduceIte]
             rw [valAt_fuel2 g i n (m + 1) m hm (by omega), h2 i h]; rfl
           · simp only [argValWith, hm, ↓reduceIte]
             rw [evalMem_fuel2 g n (m + 1) m hm (by omega), h3]; rfl
-      obtain ⟨Va, hVa⟩ := harg a (fun m hm => hlt m (by simp [nodeArgs, hm]))
-      obtain ⟨Vb, hVb⟩ := harg b (fun m hm => hlt m (by simp [nodeArgs, hm]))
+      obtain ⟨Va, hVa⟩ := harg a (fun m hm => hlt m (by simp [nodeArgs, hm])) (fun m hm => hP n _ hnb hd m (by simp [nodeArgs, hm]))
+      obtain ⟨Vb, hVb⟩ := harg b (fun m hm => hlt m (by simp [nodeArgs, hm])) (fun m hm => hP n _ hnb hd m (by simp [nodeArgs, hm]))
       have hne := hna n f a b hd
+      have hf : f.elementwise = true := hew n f a b hnb hd
       refine ⟨applyChunks f Va Vb, ?_⟩
       cases Va with
       | inl A =>
@@ -1346,9 +1353,9 @@ theorem node_chunks (g : List NodeDef) (hg : WFG g) (hna : HasNodeArg g) (lens :
             rw [zipWith_zipWith_lengths f.app A B hAB, a1]
           · intro i h
             simp only [applyChunks, List.length_zipWith] at h
-            simp only [valAt, hd, a2 i (by omega), b2 i (by omega), Option.bind_some, Option.map_some, applyFn, applyChunks,
+            simp only [valAt, hd, a2 i (by omega), b2 i (by omega), Option.bind_some, Option.map_some, applyFn, hf, ↓reduceIte, applyEw, applyChunks,
               List.getElem_zipWith]
-          · simp only [evalMem, hd, a3, b3, Option.bind_some, Option.map_some, applyFn, applyChunks]
+          · simp only [evalMem, hd, a3, b3, Option.bind_some, Option.map_some, applyFn, hf, ↓reduceIte, applyEw, applyChunks]
             rw [zipWith_flatten f.app A B hAB]
         | inr c =>
           obtain ⟨a1, a2, a3⟩ := hVa
@@ -1358,8 +1365,8 @@ theorem node_chunks (g : List NodeDef) (hg : WFG g) (hna : HasNodeArg g) (lens :
             rw [← a1]; congr 1; funext x; simp
           · intro i h
             simp only [applyChunks, List.length_map] at h
-            simp only [valAt, hd, a2 i h, b2 i, Option.bind_some, Option.map_some, applyFn, applyChunks, List.getElem_map]
-          · simp only [evalMem, hd, a3, b3, Option.bind_some, Option.map_some, applyFn, applyChunks, List.map_flatten]
+            simp only [valAt, hd, a2 i h, b2 i, Option.bind_some, Option.map_some, applyFn, hf, ↓reduceIte, applyEw, applyChunks, List.getElem_map]
+          · simp only [evalMem, hd, a3, b3, Option.bind_some, Option.map_some, applyFn, hf, ↓reduceIte, applyEw, applyChunks, List.map_flatten]
       | inr c =>
         cases Vb with
         | inl B =>
@@ -1370,8 +1377,8 @@ theorem node_chunks (g : List NodeDef) (hg : WFG g) (hna : HasNodeArg g) (lens :
             rw [← b1]; congr 1; funext x; simp
           · intro i h
             simp only [applyChunks, List.length_map] at h
-            simp only [valAt, hd, a2 i, b2 i h, Option.bind_some, Option.map_some, applyFn, applyChunks, List.getElem_map]
-          · simp only [evalMem, hd, a3, b3, Option.bind_some, Option.map_some, applyFn, applyChunks, List.map_flatten]
+            simp only [valAt, hd, a2 i, b2 i h, Option.bind_some, Option.map_some, applyFn, hf, ↓reduceIte, applyEw, applyChunks, List.getElem_map]
+          · simp only [evalMem, hd, a3, b3, Option.bind_some, Option.map_some, applyFn, hf, ↓reduceIte, applyEw, applyChunks, List.map_flatten]
         | inr c' =>
           -- both arguments constant: excluded (NumPy would not have created a node)
           exfalso
@@ -1398,14 +1405,15 @@ theorem node_chunks (g : List NodeDef) (hg : WFG g) (hna : HasNodeArg g) (lens :
 streams are cut at the same positions (any positions, at least one buffer), `compute()` of any node
 returns exactly the value of the same expression evaluated in memory on the concatenated streams. -/
 theorem graph_value (g : List NodeDef) (hg : WFG g) (hna : HasNodeArg g) (lens : List Nat) (ha : Aligned g lens)
-    (hpos : 0 < lens.length) (root fuel : Nat) (hroot : root < g.length) (hf : lens.length < fuel) :
+    (hpos : 0 < lens.length) (root fuel : Nat) (hew : EwOn g (Reach g root)) (hroot : root < g.length)
+    (hf : lens.length < fuel) :
     ∃ v st, computeGraph g root fuel = .ok (v, st) ∧ evalMem g (root + 1) root = some v := by
   have hch : ∀ (n : Nat) (cs : List (List Int)), g[n]? = some (NodeDef.stream cs) → cs.length = lens.length := by
     intro n cs h
     have := congrArg List.length (ha n cs h)
     simpa using this
   obtain ⟨vs, st, hc, hvs⟩ := graph_compute g hg hna root lens.length fuel hroot hpos hf hch
-  obtain ⟨A, h1, h2, h3⟩ := node_chunks g hg hna lens ha root hroot
+  obtain ⟨A, h1, h2, h3⟩ := node_chunks g hg hna lens ha (Reach g root) (fun n d hn hd m hm => Reach.step hn hd hm) hew root Reach.root hroot
   have hAl : A.length = lens.length := by
     have := congrArg List.length h1; simpa using this
   have : vs = A := by
@@ -1419,6 +1427,296 @@ theorem graph_value (g : List NodeDef) (hg : WFG g) (hna : HasNodeArg g) (lens :
     exact map_some_inj _ _ e
   subst this
   exact ⟨vs.flatten, st, hc, h3⟩
+
+
+
+/-! ### several roots evaluated together (`compute([a, b, …])`, `compute((reduction, reduction, …))`) -/
+
+/-- nodes some root depends on -/
+def ReachAny (g : List NodeDef) (roots : List Nat) (n : Nat) : Prop := ∃ r, r ∈ roots ∧ Reach g r n
+
+def LevelMany (g : List NodeDef) (roots : List Nat) (st : GState) (i : Nat) : Prop :=
+  ∀ n, ReachAny g roots n → At g st i n
+
+theorem reachAny_closed (g : List NodeDef) (roots : List Nat) :
+    ∀ n d, ReachAny g roots n → g[n]? = some d → ∀ m ∈ nodeArgs d, ReachAny g roots m := by
+  intro n d ⟨r, hr, hn⟩ hd m hm
+  exact ⟨r, hr, Reach.step hn hd hm⟩
+
+/-- the values of the roots on the `i`-th buffers -/
+def valsAt (g : List NodeDef) (roots : List Nat) (i : Nat) : List (List Int) :=
+  roots.map (fun r => (valAt g i (r + 1) r).getD [])
+
+theorem getBuffers_mixed (g : List NodeDef) (hg : WFG g) (roots : List Nat) (i : Nat)
+    (hch : ∀ n cs, ReachAny g roots n → g[n]? = some (NodeDef.stream cs) → i + 1 < cs.length) :
+    ∀ (rs : List Nat) (st : GState), (∀ r ∈ rs, r ∈ roots) → Mixed g st i (ReachAny g roots) →
+      ∃ st' vs, getBuffers g rs st (i + 1) = .ok (st', vs) ∧ vs = valsAt g rs (i + 1) ∧
+        Mixed g st' i (ReachAny g roots) ∧ (∀ j, At g st (i + 1) j → At g st' (i + 1) j) ∧
+        (∀ r ∈ rs, At g st' (i + 1) r) := by
+  intro rs
+  induction rs with
+  | nil => intro st _ hm; exact ⟨st, [], rfl, rfl, hm, fun _ h => h, by simp⟩
+  | cons r rs ih =>
+    intro st hrs hm
+    obtain ⟨st1, v, hget, hout⟩ := getBuffer_step g hg (ReachAny g roots) (reachAny_closed g roots) i hch (r + 1) r st
+      (by omega) ⟨r, hrs r (by simp), Reach.root⟩ hm
+    obtain ⟨st2, vs, hget2, hvs, hm2, hmono2, hat2⟩ := ih st1 (fun x hx => hrs x (by simp [hx])) hout.mixed
+    refine ⟨st2, v :: vs, ?_, ?_, hm2, fun j hj => hmono2 j (hout.mono j hj), ?_⟩
+    · simp only [getBuffers, hget, hget2]
+    · simp only [valsAt, List.map_cons, hout.val, Option.getD_some, hvs]
+    · intro x hx
+      simp only [List.mem_cons] at hx
+      rcases hx with rfl | hx
+      · exact hmono2 _ hout.at_n
+      · exact hat2 x hx
+
+theorem levelMany_mixed (g : List NodeDef) (roots : List Nat) (st : GState) (i : Nat) (h : LevelMany g roots st i) :
+    Mixed g st i (ReachAny g roots) := by
+  refine ⟨fun n hn => Or.inl (h n hn), ?_⟩
+  intro n d hn hat _ _ _
+  have := At_idx_unique g st i (i + 1) n (h n hn) hat
+  omega
+
+/-- **lock step for several roots**: one round over all roots keeps every node any root depends on
+at the same index; shared sub-expressions and shared streams are advanced once. -/
+theorem graph_lockstep_many (g : List NodeDef) (hg : WFG g) (roots : List Nat) (st : GState) (i : Nat)
+    (hl : LevelMany g roots st i)
+    (hch : ∀ n cs, ReachAny g roots n → g[n]? = some (NodeDef.stream cs) → i + 1 < cs.length) :
+    ∃ st', getBuffers g roots st (i + 1) = .ok (st', valsAt g roots (i + 1)) ∧ LevelMany g roots st' (i + 1) := by
+  obtain ⟨st', vs, hget, hvs, hm, _, hat⟩ :=
+    getBuffers_mixed g hg roots i hch roots st (fun r h => h) (levelMany_mixed g roots st i hl)
+  subst hvs
+  refine ⟨st', hget, ?_⟩
+  intro n ⟨r, hr, hn⟩
+  induction hn with
+  | root => exact hat r hr
+  | step hreach hd hmem ih => exact hm.2 _ _ ⟨r, hr, hreach⟩ ih hd _ hmem
+
+theorem getBuffers_same (g : List NodeDef) (st : GState) (i : Nat) :
+    ∀ rs, (∀ r ∈ rs, At g st i r) → getBuffers g rs st i = .ok (st, valsAt g rs i) := by
+  intro rs
+  induction rs with
+  | nil => intro _; rfl
+  | cons r rs ih =>
+    intro h
+    obtain ⟨v, hget, hv⟩ := getBuffer_same g st i r r (h r (by simp))
+    simp only [getBuffers, hget, ih (fun x hx => h x (by simp [hx])), valsAt, List.map_cons, hv, Option.getD_some]
+
+theorem getBuffers_stop (g : List NodeDef) (hg : WFG g) (hna : HasNodeArg g) (r : Nat) (rs : List Nat) (st : GState) (i : Nat)
+    (hl : LevelMany g (r :: rs) st i)
+    (hch : ∀ n cs, ReachAny g (r :: rs) n → g[n]? = some (NodeDef.stream cs) → cs.length = i + 1) :
+    getBuffers g (r :: rs) st (i + 1) = .error .stop := by
+  have hl1 : Level g r st i := fun n hn => hl n ⟨r, by simp, hn⟩
+  have := graph_stop g hg hna r st i hl1 (fun n cs hn hd => hch n cs ⟨r, by simp, hn⟩ hd) (r + 1) r (by omega) Reach.root
+  simp only [getBuffers, this]
+
+theorem graph_iter_many (g : List NodeDef) (hg : WFG g) (hna : HasNodeArg g) (roots : List Nat) (hne : roots ≠ []) (M : Nat)
+    (hch : ∀ n cs, ReachAny g roots n → g[n]? = some (NodeDef.stream cs) → cs.length = M) :
+    ∀ k i st fuel, i + k + 1 = M → k + 1 < fuel → LevelMany g roots st i →
+      ∃ st', getIterMany g roots fuel i st = .ok ((List.range (k + 1)).map (fun j => valsAt g roots (i + j)), st') := by
+  obtain ⟨r0, rs0, rfl⟩ : ∃ r rs, roots = r :: rs := by
+    cases roots with
+    | nil => exact absurd rfl hne
+    | cons r rs => exact ⟨r, rs, rfl⟩
+  intro k
+  induction k with
+  | zero =>
+    intro i st fuel hM hf hl
+    have hsame := getBuffers_same g st i (r0 :: rs0) (fun r hr => hl r ⟨r, hr, Reach.root⟩)
+    have hstop := getBuffers_stop g hg hna r0 rs0 st i hl (fun n cs hr hd => by rw [hch n cs hr hd]; omega)
+    obtain ⟨f', rfl⟩ : ∃ f', fuel = f' + 2 := ⟨fuel - 2, by omega⟩
+    exact ⟨st, by simp only [getIterMany, hsame, hstop]; simp⟩
+  | succ k ih =>
+    intro i st fuel hM hf hl
+    have hsame := getBuffers_same g st i (r0 :: rs0) (fun r hr => hl r ⟨r, hr, Reach.root⟩)
+    obtain ⟨st1, hget1, hl1⟩ := graph_lockstep_many g hg (r0 :: rs0) st i hl
+      (fun n cs hr hd => by rw [hch n cs hr hd]; omega)
+    obtain ⟨f', rfl⟩ : ∃ f', fuel = f' + 1 := ⟨fuel - 1, by omega⟩
+    obtain ⟨st', hiter⟩ := ih (i + 1) st1 f' (by omega) (by omega) hl1
+    have hsame1 := getBuffers_same g st1 (i + 1) (r0 :: rs0) (fun r hr => hl1 r ⟨r, hr, Reach.root⟩)
+    have hcont : getIterMany g (r0 :: rs0) f' (i + 1) st = getIterMany g (r0 :: rs0) f' (i + 1) st1 := by
+      obtain ⟨f'', rfl⟩ : ∃ f'', f' = f'' + 1 := ⟨f' - 1, by omega⟩
+      simp only [getIterMany, hget1, hsame1]
+    refine ⟨st', ?_⟩
+    simp only [getIterMany, hsame, hcont, hiter]
+    rw [List.range_succ_eq_map (n := k + 1)]
+    simp [Function.comp_def, Nat.add_assoc, Nat.add_comm 1]
+
+
+/-- per-buffer values of all roots, for buffers `0 … M-1` -/
+def rowsAt (g : List NodeDef) (roots : List Nat) (M : Nat) : List (List (List Int)) :=
+  (List.range M).map (fun i => valsAt g roots i)
+
+/-- **`compute` of several roots**: construction succeeds, the roots are iterated together in lock
+step, and what is concatenated / reduced are exactly the roots' values on buffers `0 … M-1`. -/
+theorem graph_compute_many (g : List NodeDef) (hg : WFG g) (hna : HasNodeArg g) (roots : List Nat) (hne : roots ≠ [])
+    (M fuel : Nat) (hroots : ∀ r ∈ roots, r < g.length) (hM : 0 < M) (hf : M < fuel)
+    (hch : ∀ (n : Nat) (cs : List (List Int)), g[n]? = some (NodeDef.stream cs) → cs.length = M) :
+    ∃ st, computeMany g roots fuel =
+        .ok ((List.range roots.length).map (fun j => ((rowsAt g roots M).map (fun r => r.getD j [])).flatten), st) ∧
+      computeReduced g roots fuel = .ok (reduce1 addTuples (rowsAt g roots M), st) := by
+  obtain ⟨st0, hc, hall, _⟩ := construct_spec g hg (fun n cs h => by
+    intro e; have := hch n cs h; rw [e] at this; simp at this; omega) g.length (Nat.le_refl _)
+  have hlt : ∀ n, ReachAny g roots n → n < g.length := by
+    intro n ⟨r, hr, hn⟩
+    induction hn with
+    | root => exact hroots r hr
+    | step _ hd hm ih => have := hg _ _ hd _ hm; omega
+  have hl : LevelMany g roots st0 0 := fun n hn => hall n (hlt n hn)
+  obtain ⟨k, rfl⟩ : ∃ k, M = k + 1 := ⟨M - 1, by omega⟩
+  obtain ⟨st', hiter⟩ := graph_iter_many g hg hna roots hne (k + 1) (fun n cs _ h => hch n cs h) k 0 st0 fuel
+    (by omega) (by omega) hl
+  refine ⟨st', ?_, ?_⟩
+  · simp only [computeMany, hc, hiter, rowsAt]; simp
+  · simp only [computeReduced, hc, hiter, rowsAt]; simp
+
+/-- **several roots, streamed = in memory**: every column returned by `compute([a, b, …])` is the
+in-memory value of that root on the concatenated streams. -/
+theorem graph_value_many (g : List NodeDef) (hg : WFG g) (hna : HasNodeArg g) (lens : List Nat) (ha : Aligned g lens)
+    (hpos : 0 < lens.length) (roots : List Nat) (hne : roots ≠ []) (fuel : Nat)
+    (hew : EwOn g (ReachAny g roots)) (hroots : ∀ r ∈ roots, r < g.length) (hf : lens.length < fuel) :
+    ∃ cols st, computeMany g roots fuel = .ok (cols, st) ∧
+      cols.map some = roots.map (fun r => evalMem g (r + 1) r) := by
+  have hch : ∀ (n : Nat) (cs : List (List Int)), g[n]? = some (NodeDef.stream cs) → cs.length = lens.length := by
+    intro n cs h
+    have := congrArg List.length (ha n cs h)
+    simpa using this
+  obtain ⟨st, hc, _⟩ := graph_compute_many g hg hna roots hne lens.length fuel hroots hpos hf hch
+  refine ⟨_, st, hc, ?_⟩
+  apply List.ext_getElem
+  · simp
+  · intro j h1 h2
+    simp only [List.length_map, List.length_range] at h1
+    simp only [List.getElem_map, List.getElem_range]
+    obtain ⟨A, a1, a2, a3⟩ := node_chunks g hg hna lens ha (ReachAny g roots) (reachAny_closed g roots) hew roots[j]
+      ⟨roots[j], List.getElem_mem h1, Reach.root⟩ (hroots _ (List.getElem_mem h1))
+    have hAl : A.length = lens.length := by
+      have := congrArg List.length a1; simpa using this
+    rw [a3]
+    congr 2
+    apply List.ext_getElem
+    · simp [rowsAt, hAl]
+    · intro i hi1 hi2
+      simp only [rowsAt, List.map_map, List.getElem_map, List.getElem_range, Function.comp_apply, valsAt,
+        List.getD_eq_getElem?_getD, List.getElem?_map, List.getElem?_eq_getElem h1, Option.map_some, Option.getD_some]
+      rw [a2 i hi2]; rfl
+
+
+/-! ### reductions over the buffers (`np.sum(node)`, `np.mean(node)`, `np.histogram(node, edges)`) -/
+
+theorem applyRed_add (f : Fn) (hf : f.elementwise = false) (x y : List Int) :
+    List.zipWith (· + ·) (applyRed f x) (applyRed f y) = applyRed f (x ++ y) := by
+  cases f with
+  | add => simp [Fn.elementwise] at hf
+  | sub => simp [Fn.elementwise] at hf
+  | mul => simp [Fn.elementwise] at hf
+  | sum => simp [applyRed, List.sum_append]
+  | sumN => simp [applyRed, List.sum_append]
+  | hist e =>
+    simp only [applyRed]
+    rw [← histogram_add]
+    apply List.ext_getElem
+    · simp
+    · intro i h1 h2; simp
+
+theorem zipWith_map_map {ρ β} (f : β → β → β) (g h : ρ → β) (l : List ρ) :
+    List.zipWith f (l.map g) (l.map h) = l.map (fun x => f (g x) (h x)) := by
+  induction l with
+  | nil => rfl
+  | cons a l ih => simp [ih]
+
+/-- folding position-wise addition over the rows: if each root's running value `P r k` satisfies
+`P r 0 = B r 0` and `P r k + B r (k+1) = P r (k+1)` then the fold of the first `k+1` rows is `P · k` -/
+theorem fold_rows {ρ} (roots : List ρ) (B P : ρ → Nat → List Int) (K : Nat)
+    (h0 : ∀ r ∈ roots, P r 0 = B r 0)
+    (hs : ∀ r ∈ roots, ∀ k, k < K → List.zipWith (· + ·) (P r k) (B r (k + 1)) = P r (k + 1)) :
+    ∀ k, k ≤ K → ((List.range k).map (fun j => roots.map (fun r => B r (j + 1)))).foldl addTuples (roots.map (fun r => B r 0))
+      = roots.map (fun r => P r k) := by
+  intro k
+  induction k with
+  | zero =>
+    intro _
+    simp only [List.range_zero, List.map_nil, List.foldl_nil]
+    exact List.map_congr_left (fun r hr => (h0 r hr).symm)
+  | succ k ih =>
+    intro hk
+    rw [List.range_succ, List.map_append, List.foldl_append, ih (by omega)]
+    simp only [List.map_cons, List.map_nil, List.foldl_cons, List.foldl_nil, addTuples, zipWith_map_map]
+    exact List.map_congr_left (fun r hr => hs r hr k (by omega))
+
+/-- a root that is the inner node of a reduction: a non-element-wise function of one element-wise
+sub-expression (the second operand slot holds a constant) -/
+def RedRoot (g : List NodeDef) (r : Nat) : Prop :=
+  ∃ (f : Fn) (a : Nat) (c : Int), g[r]? = some (NodeDef.comp f (Arg.node a) (Arg.const c)) ∧
+    f.elementwise = false ∧ EwOn g (Reach g a)
+
+/-- **reductions, streamed = in memory**: folding the per-buffer results of `np.sum` / `sum_and_n` /
+`np.histogram(·, edges)` nodes over all buffers (one or several reductions computed together) gives,
+for every reduction, its value on the concatenated data — for every common cutting of the streams. -/
+theorem graph_reduced_value (g : List NodeDef) (hg : WFG g) (hna : HasNodeArg g) (lens : List Nat) (ha : Aligned g lens)
+    (hpos : 0 < lens.length) (roots : List Nat) (hne : roots ≠ []) (fuel : Nat)
+    (hred : ∀ r ∈ roots, RedRoot g r) (hroots : ∀ r ∈ roots, r < g.length) (hf : lens.length < fuel) :
+    ∃ res st, computeReduced g roots fuel = .ok (some res, st) ∧
+      res.map some = roots.map (fun r => evalMem g (r + 1) r) := by
+  have hch : ∀ (n : Nat) (cs : List (List Int)), g[n]? = some (NodeDef.stream cs) → cs.length = lens.length := by
+    intro n cs h
+    have := congrArg List.length (ha n cs h)
+    simpa using this
+  obtain ⟨st, _, hc⟩ := graph_compute_many g hg hna roots hne lens.length fuel hroots hpos hf hch
+  obtain ⟨K, hK⟩ : ∃ K, lens.length = K + 1 := ⟨lens.length - 1, by omega⟩
+  -- per root: chunks of the argument, running values
+  have hper : ∀ r ∈ roots, ∃ P : Nat → List Int,
+      P 0 = (valAt g 0 (r + 1) r).getD [] ∧
+      (∀ k, k < K → List.zipWith (· + ·) (P k) ((valAt g (k + 1) (r + 1) r).getD []) = P (k + 1)) ∧
+      evalMem g (r + 1) r = some (P K) := by
+    intro r hr
+    obtain ⟨f, a, c, hd, hf', hewa⟩ := hred r hr
+    have har : a < r := hg r _ hd a (by simp [nodeArgs, argNodes])
+    obtain ⟨A, a1, a2, a3⟩ := node_chunks g hg hna lens ha (Reach g a) (fun n d hn hd m hm => Reach.step hn hd hm) hewa a
+      Reach.root (by have := hroots r hr; omega)
+    have hAl : A.length = K + 1 := by
+      have := congrArg List.length a1; simp at this; omega
+    have hval : ∀ i (h : i < A.length), valAt g i (r + 1) r = some (applyRed f A[i]) := by
+      intro i h
+      simp only [valAt, hd, argValWith, har, ↓reduceIte]
+      rw [valAt_fuel2 g i r (a + 1) a har (by omega), a2 i h]
+      simp [applyFn, hf']
+    refine ⟨fun k => applyRed f (A.take (k + 1)).flatten, ?_, ?_, ?_⟩
+    · rw [hval 0 (by omega)]
+      have : A.take 1 = [A[0]'(by omega)] := by
+        cases A with
+        | nil => simp at hAl
+        | cons x xs => simp
+      simp [this]
+    · intro k hk
+      rw [hval (k + 1) (by omega), Option.getD_some, applyRed_add f hf']
+      congr 1
+      rw [List.take_add_one (i := k + 1), List.getElem?_eq_getElem (by omega)]
+      simp only [List.flatten_append, Option.toList_some, List.flatten_cons, List.flatten_nil, List.append_nil]
+    · simp only [evalMem, hd, argValWith, har, ↓reduceIte]
+      rw [evalMem_fuel2 g r (a + 1) a har (by omega), a3]
+      have : A.take (K + 1) = A := List.take_of_length_le (by omega)
+      simp [applyFn, hf', this]
+  -- choose the running values
+  have hchoice : ∃ P : Nat → Nat → List Int, ∀ r ∈ roots,
+      P r 0 = (valAt g 0 (r + 1) r).getD [] ∧
+      (∀ k, k < K → List.zipWith (· + ·) (P r k) ((valAt g (k + 1) (r + 1) r).getD []) = P r (k + 1)) ∧
+      evalMem g (r + 1) r = some (P r K) := by
+    classical
+    refine ⟨fun r => if h : r ∈ roots then (hper r h).choose else fun _ => [], ?_⟩
+    intro r hr
+    simp only [hr, ↓reduceDIte]
+    exact (hper r hr).choose_spec
+  obtain ⟨P, hP⟩ := hchoice
+  have hfold := fold_rows roots (fun r i => (valAt g i (r + 1) r).getD []) P K
+    (fun r hr => (hP r hr).1) (fun r hr => (hP r hr).2.1) K (Nat.le_refl _)
+  refine ⟨roots.map (fun r => P r K), st, ?_, ?_⟩
+  · rw [hc]
+    congr 2
+    simp only [rowsAt, hK, List.range_succ_eq_map, List.map_cons, List.map_map, reduce1]
+    congr 1
+  · rw [List.map_map]
+    exact List.map_congr_left (fun r hr => ((hP r hr).2.2).symm)
 
 
 /-- a graph with a stream shared by two parents, cut as [2, 1] -/
@@ -1447,5 +1745,316 @@ example : groupbyStream true (fun x : Nat × Nat => x.1) [[(1, 0), (1, 1)], [(1,
     = some [(1, [(1, 0), (1, 1), (1, 2)]), (2, [(2, 3)]), (3, [(3, 4)])] := by decide
 example : bincountStream 0 [[1, 2], [5], [0]] = some [1, 1, 1, 0, 0, 1] := by decide
 example : chunkEntries 3 [[0, 1, 2, 3], [4, 5, 6, 7, 8, 9]] = some [[0, 1, 2], [3, 4, 5], [6, 7, 8], [9]] := by decide
+
+
+/-! ## per-chromosome pipelines (`stream=True`) -/
+
+theorem runs_eq_C10 (l : List C10.Iv) : runs (fun iv : C10.Iv => iv.c) l = C10.runs l := by
+  induction l with
+  | nil => rfl
+  | cons x r ih =>
+    simp only [runs, C10.runs, ih]
+    cases C10.runs r with
+    | nil => rfl
+    | cons g t =>
+      obtain ⟨k, grp⟩ := g
+      simp only
+
+theorem iterChrom_nil (rem c : Nat) (seen : List Nat) :
+    iterChrom rem c seen [] = some (List.replicate rem []) := by
+  induction rem generalizing c seen with
+  | zero => rfl
+  | succ rem ih => simp [iterChrom, ih, List.replicate_succ]
+
+theorem dropWhile_pairwise {α} (R : α → α → Prop) (p : α → Bool) (l : List α) (h : l.Pairwise R) :
+    (l.dropWhile p).Pairwise R :=
+  h.sublist (List.dropWhile_sublist p)
+
+/-- walking the genome order over the runs of chromosome-sorted entries hands out, for every
+chromosome, exactly its own entries (an empty table when it has none) and never raises -/
+theorem iterChrom_runs (rem : Nat) : ∀ (c0 : Nat) (seen : List Nat) (l : List C10.Iv),
+    l.Pairwise (fun a b => a.c ≤ b.c) → (∀ iv ∈ l, c0 ≤ iv.c ∧ iv.c < c0 + rem) → (∀ x ∈ seen, x < c0) →
+    iterChrom rem c0 seen (C10.runs l) = some ((List.range' c0 rem).map (fun c => l.filter (fun iv => iv.c = c))) := by
+  induction rem with
+  | zero =>
+    intro c0 seen l _ hb _
+    have : l = [] := by
+      cases l with
+      | nil => rfl
+      | cons x r => have := hb x (by simp); omega
+    subst this
+    rfl
+  | succ rem ih =>
+    intro c0 seen l hs hb hseen
+    have hlo : ∀ iv ∈ l, c0 ≤ iv.c := fun iv h => (hb iv h).1
+    have hfilt := C10.filter_eq_takeWhile l c0 hs hlo
+    by_cases htw : l.takeWhile (fun iv => iv.c = c0) = []
+    · -- chromosome c0 has no entries
+      have hall : ∀ iv ∈ l, c0 + 1 ≤ iv.c ∧ iv.c < c0 + 1 + rem := by
+        intro iv hiv
+        have h1 := hb iv hiv
+        have : iv.c ≠ c0 := by
+          intro e
+          have : iv ∈ l.filter (fun iv => iv.c = c0) := by simp [hiv, e]
+          rw [hfilt, htw] at this
+          simp at this
+        omega
+      have ih' := ih (c0 + 1) (c0 :: seen) l hs hall (by
+        intro x hx; simp at hx; rcases hx with rfl | hx
+        · omega
+        · have := hseen x hx; omega)
+      rw [List.range'_succ, List.map_cons, hfilt, htw]
+      cases hl : l with
+      | nil =>
+        subst hl
+        simp only [C10.runs, iterChrom] at ih' ⊢
+        rw [ih']; simp
+      | cons x r =>
+        obtain ⟨g, t, hg⟩ := C10.runs_head x r
+        have hx : x.c ≠ c0 := by
+          have := (hall x (by rw [hl]; simp)).1; omega
+        rw [hl] at ih'
+        rw [hg] at ih' ⊢
+        simp only [iterChrom, hx, ↓reduceIte, ih', Option.map_some]
+    · -- chromosome c0 has entries: they are the first run
+      rw [C10.runs_span l c0 htw]
+      obtain ⟨dw, hdw⟩ : ∃ dw, dw = l.dropWhile (fun iv => iv.c = c0) := ⟨_, rfl⟩
+      rw [← hdw]
+      have hdlo := C10.dropWhile_lo l c0 hs hlo
+      rw [← hdw] at hdlo
+      have hds : dw.Pairwise (fun a b => a.c ≤ b.c) := by rw [hdw]; exact dropWhile_pairwise _ _ l hs
+      have hdb : ∀ iv ∈ dw, c0 + 1 ≤ iv.c ∧ iv.c < c0 + 1 + rem := by
+        intro iv hiv
+        have h1 := hdlo iv hiv
+        have : iv ∈ l := by rw [hdw] at hiv; exact (List.dropWhile_sublist _).subset hiv
+        have := (hb iv this).2
+        omega
+      have ih' := ih (c0 + 1) (c0 :: seen) dw hds hdb (by
+        intro x hx; simp at hx; rcases hx with rfl | hx
+        · omega
+        · have := hseen x hx; omega)
+      have hrest : (List.range' (c0 + 1) rem).map (fun c => dw.filter (fun iv => iv.c = c))
+          = (List.range' (c0 + 1) rem).map (fun c => l.filter (fun iv => iv.c = c)) := by
+        apply List.map_congr_left
+        intro c hc
+        have : c ≠ c0 := by simp [List.mem_range'] at hc; omega
+        rw [hdw]; exact C10.filter_dropWhile l c0 c this
+      rw [List.range'_succ, List.map_cons, hfilt, ← hrest]
+      cases hd : dw with
+      | nil =>
+        rw [hd] at ih'
+        simp only [C10.runs] at ih' ⊢
+        simp only [iterChrom, ↓reduceIte, ih', Option.map_some]
+      | cons y r =>
+        obtain ⟨g, t, hg⟩ := C10.runs_head y r
+        rw [hd] at ih'
+        rw [hg] at ih' ⊢
+        have hy : seen.contains y.c = false := by
+          have h1 := hdlo y (by rw [hd]; simp)
+          cases hc : seen.contains y.c with
+          | false => rfl
+          | true =>
+            have := hseen y.c (by simpa using hc)
+            omega
+        simp only [iterChrom, ↓reduceIte, hy, Bool.false_eq_true, ih', Option.map_some]
+
+
+theorem toDict_flatten (sizes : List Nat) : ∀ (dense : List Nat), dense.length = C10.total sizes →
+    (C10.toDict sizes dense).flatten = dense := by
+  induction sizes with
+  | nil =>
+    intro dense h
+    simp only [C10.total, List.sum_nil] at h
+    have : dense = [] := List.length_eq_zero_iff.mp h
+    subst this; rfl
+  | cons s ss ih =>
+    intro dense h
+    simp only [C10.total, List.sum_cons] at h
+    have hrec : ∀ c, c < ss.length → C10.extractChrom (s :: ss) dense (c + 1) = C10.extractChrom ss (dense.drop s) c := by
+      intro c hc
+      simp only [C10.extractChrom, C10.size_cons_succ, C10.offset_cons_succ s ss c (by omega), List.drop_drop]
+      congr 2; omega
+    have h0 : C10.extractChrom (s :: ss) dense 0 = dense.take s := by
+      simp [C10.extractChrom, C10.offset_cons_zero, C10.size_cons_zero]
+    have : C10.toDict (s :: ss) dense = dense.take s :: C10.toDict ss (dense.drop s) := by
+      simp only [C10.toDict, List.length_cons, List.range_succ_eq_map, List.map_cons, List.map_map, h0]
+      congr 1
+      apply List.map_congr_left
+      intro c hc
+      simp only [List.mem_range] at hc
+      exact hrec c hc
+    rw [this, List.flatten_cons, ih (dense.drop s) (by simp [C10.total]; omega), List.take_append_drop]
+
+theorem sum_map_sum (l : List (List Nat)) : (l.map List.sum).sum = l.flatten.sum := by
+  induction l with
+  | nil => rfl
+  | cons a l ih => simp [List.sum_append, ih]
+
+theorem zipWith_range_map {β γ} (f : Nat → β → γ) (l : List Nat) (G : Nat → β) :
+    List.zipWith f l ((List.range l.length).map G) = (List.range l.length).map (fun c => f (l.getD c 0) (G c)) := by
+  apply List.ext_getElem
+  · simp
+  · intro i h1 h2
+    simp only [List.length_map, List.length_range] at h2
+    simp [List.getD_eq_getElem?_getD, List.getElem?_eq_getElem h2]
+
+theorem pileup1_spec (sizes : List Nat) (ivs : List C10.Iv) (c : Nat) :
+    pileup1 (C10.size sizes c) (ivs.filter (fun iv => iv.c = c)) = C10.specPileupChrom sizes ivs c := by
+  simp only [pileup1, C10.specPileupChrom]
+
+theorem chromBuffers_spec (sizes : List Nat) (ivs : List C10.Iv) (cs : List (List C10.Iv)) (hcs : IsChunking ivs cs)
+    (hs : ivs.Pairwise (fun a b => a.c ≤ b.c)) (hv : ∀ iv ∈ ivs, iv.valid sizes = true) :
+    chromBuffers sizes.length cs = some ((List.range sizes.length).map (fun c => ivs.filter (fun iv => iv.c = c))) := by
+  have hg := groupby_chunks_any_keys (fun iv : C10.Iv => iv.c) ivs cs hcs
+  simp only [chromBuffers, hg, runs_eq_C10]
+  rw [iterChrom_runs sizes.length 0 [] ivs hs ?_ (by simp), List.range_eq_range']
+  intro iv hiv
+  have := hv iv hiv
+  simp only [C10.Iv.valid, Bool.and_eq_true, decide_eq_true_eq] at this
+  omega
+
+/-- **per-chromosome streaming = whole-genome in memory**: for every genome, every chromosome-sorted
+set of valid entries and every way of cutting it into chunks (inside a chromosome, chunks of one
+entry, chromosomes without entries), grouping the chunks by chromosome, walking the genome order and
+concatenating the per-chromosome pile-ups (masks) gives exactly the in-memory pile-up (mask) over the
+concatenated genome; the streamed `sum` reduction is the sum of that array. -/
+theorem per_chromosome (sizes : List Nat) (ivs : List C10.Iv) (cs : List (List C10.Iv)) (hcs : IsChunking ivs cs)
+    (hs : ivs.Pairwise (fun a b => a.c ≤ b.c)) (hv : ∀ iv ∈ ivs, iv.valid sizes = true) :
+    streamPileup sizes cs = C10.pileupGlobal sizes ivs ∧ streamMask sizes cs = C10.maskGlobal sizes ivs ∧
+    streamPileupSum sizes cs = (C10.pileupGlobal sizes ivs).map List.sum := by
+  have hb := chromBuffers_spec sizes ivs cs hcs hs hv
+  obtain ⟨hp, hm⟩ := C10.cover_local sizes ivs hv
+  have hzp : List.zipWith pileup1 sizes ((List.range sizes.length).map (fun c => ivs.filter (fun iv => iv.c = c)))
+      = (List.range sizes.length).map (C10.specPileupChrom sizes ivs) := by
+    rw [zipWith_range_map]
+    apply List.map_congr_left
+    intro c _
+    exact pileup1_spec sizes ivs c
+  have hzm : List.zipWith mask1 sizes ((List.range sizes.length).map (fun c => ivs.filter (fun iv => iv.c = c)))
+      = (List.range sizes.length).map (C10.specMaskChrom sizes ivs) := by
+    rw [zipWith_range_map]
+    apply List.map_congr_left
+    intro c _
+    simp only [mask1, C10.specMaskChrom]
+    rw [show sizes.getD c 0 = C10.size sizes c from rfl, pileup1_spec]
+  -- the in-memory arrays
+  simp only [C10.pileupGlobal, C10.maskGlobal, C10.omap_toGlobal sizes ivs hv, Option.map_some, Option.some.injEq] at hp hm ⊢
+  have hpf := congrArg List.flatten hp
+  have hmf := congrArg List.flatten hm
+  rw [toDict_flatten sizes _ (by simp)] at hpf hmf
+  refine ⟨?_, ?_, ?_⟩
+  · simp only [streamPileup, hb, Option.map_some, hzp, ← hpf]
+  · simp only [streamMask, hb, Option.map_some, hzm, ← hmf]
+  · simp only [streamPileupSum, hb, Option.map_some, hzp, Option.some.injEq]
+    rw [hpf, sum_map_sum]
+
+example : IsChunking ([{ c := 0, s := 3, e := 5 }, { c := 1, s := 0, e := 2 }] : List C10.Iv)
+    [[{ c := 0, s := 3, e := 5 }], [{ c := 1, s := 0, e := 2 }]] := ⟨rfl, by simp⟩
+example : streamPileup [5, 5] [[{ c := 0, s := 3, e := 5 }], [{ c := 1, s := 0, e := 2 }]]
+    = some [0, 0, 0, 1, 1, 1, 1, 0, 0, 0] := by decide
+example : chromBuffers 3 [[{ c := 0, s := 3, e := 5 }], [{ c := 2, s := 0, e := 2 }]]
+    = some [[{ c := 0, s := 3, e := 5 }], [], [{ c := 2, s := 0, e := 2 }]] := by decide
+
+
+
+theorem sorted_filter_concat (rem : Nat) : ∀ (c0 : Nat) (l : List C10.Iv),
+    l.Pairwise (fun a b => a.c ≤ b.c) → (∀ iv ∈ l, c0 ≤ iv.c ∧ iv.c < c0 + rem) →
+    ((List.range' c0 rem).map (fun c => l.filter (fun iv => iv.c = c))).flatten = l := by
+  induction rem with
+  | zero =>
+    intro c0 l _ hb
+    cases l with
+    | nil => rfl
+    | cons x r => have := hb x (by simp); omega
+  | succ rem ih =>
+    intro c0 l hs hb
+    have hlo : ∀ iv ∈ l, c0 ≤ iv.c := fun iv h => (hb iv h).1
+    have hfilt := C10.filter_eq_takeWhile l c0 hs hlo
+    obtain ⟨dw, hdw⟩ : ∃ dw, dw = l.dropWhile (fun iv => iv.c = c0) := ⟨_, rfl⟩
+    have hdlo := C10.dropWhile_lo l c0 hs hlo
+    rw [← hdw] at hdlo
+    have hds : dw.Pairwise (fun a b => a.c ≤ b.c) := by rw [hdw]; exact dropWhile_pairwise _ _ l hs
+    have hdb : ∀ iv ∈ dw, c0 + 1 ≤ iv.c ∧ iv.c < c0 + 1 + rem := by
+      intro iv hiv
+      have h1 := hdlo iv hiv
+      have : iv ∈ l := by rw [hdw] at hiv; exact (List.dropWhile_sublist _).subset hiv
+      have := (hb iv this).2
+      omega
+    have hrest : (List.range' (c0 + 1) rem).map (fun c => l.filter (fun iv => iv.c = c))
+        = (List.range' (c0 + 1) rem).map (fun c => dw.filter (fun iv => iv.c = c)) := by
+      apply List.map_congr_left
+      intro c hc
+      have : c ≠ c0 := by simp [List.mem_range'] at hc; omega
+      rw [hdw]; exact (C10.filter_dropWhile l c0 c this).symm
+    rw [List.range'_succ, List.map_cons, List.flatten_cons, hfilt, hrest, ih (c0 + 1) dw hds hdb, hdw,
+      List.takeWhile_append_dropWhile]
+
+theorem specPileup_length (sizes : List Nat) (ivs : List C10.Iv) :
+    ((List.range sizes.length).map (C10.specPileupChrom sizes ivs)).map List.length = sizes := by
+  apply List.ext_getElem
+  · simp
+  · intro i h1 h2
+    simp only [List.length_map, List.length_range] at h1
+    simp [C10.specPileupChrom, C10.size, List.getD_eq_getElem?_getD, List.getElem?_eq_getElem h1]
+
+/-- **values under intervals**: per chromosome, slicing that chromosome's streamed pile-up under that
+chromosome's peaks and concatenating in genome order gives, for chromosome-sorted valid peaks, row for
+row the slices of the whole-genome in-memory pile-up under the peaks' global coordinates. -/
+theorem per_chromosome_values (sizes : List Nat) (ivs peaks : List C10.Iv) (cs pcs : List (List C10.Iv))
+    (hcs : IsChunking ivs cs) (hs : ivs.Pairwise (fun a b => a.c ≤ b.c)) (hv : ∀ iv ∈ ivs, iv.valid sizes = true)
+    (hpcs : IsChunking peaks pcs) (hps : peaks.Pairwise (fun a b => a.c ≤ b.c))
+    (hpv : ∀ iv ∈ peaks, iv.valid sizes = true) :
+    ∃ dense, C10.pileupGlobal sizes ivs = some dense ∧
+      streamValues sizes cs pcs = omap (C10.extractRow sizes dense false) peaks := by
+  obtain ⟨hp, _⟩ := C10.cover_local sizes ivs hv
+  obtain ⟨arrays, harr⟩ : ∃ arrays, arrays = (List.range sizes.length).map (C10.specPileupChrom sizes ivs) := ⟨_, rfl⟩
+  have hlens : arrays.map List.length = sizes := by rw [harr]; exact specPileup_length sizes ivs
+  simp only [C10.pileupGlobal, C10.omap_toGlobal sizes ivs hv, Option.map_some, Option.some.injEq] at hp ⊢
+  have hpf := congrArg List.flatten hp
+  rw [toDict_flatten sizes _ (by simp), ← harr] at hpf
+  refine ⟨_, rfl, ?_⟩
+  rw [hpf]
+  -- in memory: every row is the slice of its own chromosome's array
+  have hmem : omap (C10.extractRow sizes arrays.flatten false) peaks = some (peaks.map (C10.specExtractRow arrays false)) := by
+    apply omap_some_map
+    intro iv hiv
+    have := C10.extract_reversed arrays false iv (by rw [hlens]; exact hpv iv hiv)
+    rw [hlens] at this
+    exact this
+  rw [hmem]
+  -- streamed: buffers of entries and of peaks
+  have hb := chromBuffers_spec sizes ivs cs hcs hs hv
+  have hpb := chromBuffers_spec sizes peaks pcs hpcs hps hpv
+  have hzp : List.zipWith pileup1 sizes ((List.range sizes.length).map (fun c => ivs.filter (fun iv => iv.c = c))) = arrays := by
+    rw [harr, zipWith_range_map]
+    apply List.map_congr_left
+    intro c _
+    exact pileup1_spec sizes ivs c
+  simp only [streamValues, hb, hpb, hzp, Option.some.injEq, valuesRows]
+  -- row by row
+  have hk : arrays.length = sizes.length := by rw [harr]; simp
+  have hrows : List.zipWith (fun d pk => pk.map (fun iv : C10.Iv => (d.drop iv.s).take (iv.e - iv.s))) arrays
+      ((List.range sizes.length).map (fun c => peaks.filter (fun iv => iv.c = c)))
+      = (List.range sizes.length).map (fun c => (peaks.filter (fun iv => iv.c = c)).map (C10.specExtractRow arrays false)) := by
+    apply List.ext_getElem
+    · simp [hk]
+    · intro i h1 h2
+      simp only [List.length_map, List.length_range] at h2
+      simp only [List.getElem_zipWith, List.getElem_map, List.getElem_range]
+      apply List.map_congr_left
+      intro iv hiv
+      have hc : iv.c = i := by simpa using (List.mem_filter.mp hiv).2
+      simp only [C10.specExtractRow, Bool.false_and, Bool.false_eq_true, ↓reduceIte, hc,
+        List.getD_eq_getElem?_getD, List.getElem?_eq_getElem (by omega : i < arrays.length), Option.getD_some]
+  rw [hrows]
+  have : ((List.range sizes.length).map (fun c => (peaks.filter (fun iv => iv.c = c)).map (C10.specExtractRow arrays false))).flatten
+      = (((List.range sizes.length).map (fun c => peaks.filter (fun iv => iv.c = c))).flatten).map (C10.specExtractRow arrays false) := by
+    rw [List.map_flatten, List.map_map]; rfl
+  rw [this, List.range_eq_range', sorted_filter_concat sizes.length 0 peaks hps]
+  intro iv hiv
+  have := hpv iv hiv
+  simp only [C10.Iv.valid, Bool.and_eq_true, decide_eq_true_eq] at this
+  omega
+
 
 end C11
